@@ -29,6 +29,15 @@ USERS = {'user': 'pw', 'josé': 'seña'}
 _state = {}
 
 
+FIXED_NOW = 1700000000
+
+
+class _FixedClock(object):
+    @staticmethod
+    def time():
+        return float(FIXED_NOW)
+
+
 class _Capture(logging.Handler):
     """Error-log handler: remembers the exception being logged (class + innermost cherrypy frame)."""
 
@@ -244,6 +253,8 @@ def setup():
                      'tools.referer.accept_missing': True},
         '/rest': {'request.dispatch': cherrypy.dispatch.MethodDispatcher()},
     }
+    # digest nonces carry a timestamp: a fixed clock for auth_digest keeps every case replayable bit for bit
+    auth_digest.time = _FixedClock()
     root = Root()
     root.sub = Dir()
     app = cherrypy.Application(root, '', conf)
@@ -351,4 +362,9 @@ def signature(obs):
     e = obs.get('exc')
     if not e:
         return 'unknown:unknown:status%s' % obs.get('status')
-    return '%s:%s:%s' % (e['module'], e['function'], e['exc'])
+    sig = '%s:%s:%s' % (e['module'], e['function'], e['exc'])
+    # urllib's complaints about the Host-derived netloc get their own mark, so that any other ValueError raised
+    # in the same function is a different signature
+    if e['exc'] == 'ValueError' and ('IPv6' in e.get('msg', '') or 'IPv4' in e.get('msg', '')):
+        sig += ':netloc'
+    return sig
